@@ -127,7 +127,7 @@ fn triple_to_number<'a>(
     };
 
     let to_parse = pref.to_string() + "." + &suf;
-    let f = match FromStr::from_str(&to_parse) {
+    let f: f64 = match FromStr::from_str(&to_parse) {
         Ok(f) => f,
         Err(_) => {
             return Err(Error::new(
@@ -136,6 +136,14 @@ fn triple_to_number<'a>(
             ));
         }
     };
+    // Like an integer literal, a float literal must denote a number of the type:
+    // one that is too large would silently become infinity, which has no literal.
+    if !f.is_finite() {
+        return Err(Error::new(
+            format!("Float literal out of range! {}", to_parse),
+            Box::new(input.clone()),
+        ));
+    }
     Ok(Value::Float(value_node!(f, pref_pos)))
 }
 
